@@ -109,6 +109,12 @@ func (kc *Cache[V]) Update(key []byte, fn func(v Entry[V], exists bool) Entry[V]
 	needToEvict := kc.count > kc.max
 	if needToEvict {
 		evicted = kc.evict()
+		if evicted == nil {
+			// every bucket is at its minimum: the entry which was just added has to go
+			ent, _ := b.delete(key)
+			kc.count--
+			return &ent, false
+		}
 		added = !bytes.Equal(key, evicted.Key)
 	}
 	return evicted, added
